@@ -58,6 +58,13 @@ def run_twin(base_name, pri_units, dunit, libu, dshape, theta, seed, uplan=None)
     if uplan is not None:
         # the cache-file path converts the library columns itself (read_batch): same physical problem, same values
         out["lnL_file"] = np.array(joker.marginal_ln_likelihood(data, lib, n_batches=2))
+        # ... and from a user file at ONE file name per worker that every twin overwrites with its own column units
+        # (forced collision for anything keyed on the file name)
+        import os
+
+        path = os.path.join(seams.fresh_dir("c07"), "library-%d.hdf5" % os.getpid())
+        lib.write(path, overwrite=True)
+        out["lnL_userfile"] = np.array(joker.marginal_ln_likelihood(data, path))
     if uplan is not None:
         rng = seams.ScriptedGenerator(9, uniform_fn=lambda size, k: uplan[: int(size)])
         j2 = tj.TheJoker(prior, rng=rng)
@@ -118,6 +125,10 @@ def check_base(base_name, di, quick, seed, part, only_priors=None, only=None):
             continue
         f = tw["dd"]["factor"]
         want = L0 - N * np.log(f)
+        if not np.allclose(tw["lnL_userfile"], tw["lnL"], rtol=1e-9, atol=1e-9):
+            part.violation(case, "a user file (same file name re-written by each twin in its own column units) gives other values than the in-memory path",
+                           expected=tw["lnL"], observed=tw["lnL_userfile"])
+            continue
         if not np.allclose(tw["lnL_file"], tw["lnL"], rtol=1e-9, atol=1e-9):
             part.violation(case, "cache-file path and in-memory path disagree for a library stored in these column units",
                            expected=tw["lnL"], observed=tw["lnL_file"])
